@@ -647,10 +647,10 @@ def rule_d(ctx):
 def run(ctx):
     T_i, T_m, T_c = extract_tables(ctx)
     ctx.stat("table_rows", len(T_i) + len(T_m) + len(T_c))
-    rule_a(ctx, T_i, T_m, T_c)
-    rule_b(ctx, T_i)
-    rule_c(ctx, T_i)
-    rule_d(ctx)
+    ctx.guard(rule_a, ctx, T_i, T_m, T_c)
+    ctx.guard(rule_b, ctx, T_i)
+    ctx.guard(rule_c, ctx, T_i)
+    ctx.guard(rule_d, ctx)
     # "the coordinate system agrees with the tables": the maps of CoordinateSystem evaluated column-wise against the table (C01.b)
     from . import c01
     from .common import shared
